@@ -405,4 +405,238 @@ theorem readInt_formatInt (v : Int) : readInt (formatInt v) = some v := by
       · rename_i heq; simp at heq; exact absurd heq.1 hc
       · simp [hd]; omega
 
+theorem hex16 : (16 = 2 ∨ 16 = 8 ∨ 16 = 10 ∨ 16 = 16) := by decide
+
+/-- a successful 32-bit loop read exactly the positional value -/
+theorem loop32_digits : ∀ (s : List Char) (acc n : Nat), digitsLoop32 16 s acc = some n → digits 16 s acc = some n
+  | [], acc, n, h => by simpa [digitsLoop32, digits] using h
+  | c :: cs, acc, n, h => by
+    simp only [digitsLoop32, toDigit_eq 16 hex16] at h
+    simp only [digits]
+    split at h
+    · simp at h
+    · rename_i d hd
+      simp only [hd]
+      split at h
+      · exact loop32_digits cs _ n h
+      · simp at h
+
+/-- all characters of a text the spec reads as digits are ASCII -/
+theorem digit_ascii {radix : Nat} {c : Char} {d : Nat} (h : digitIn radix c = some d) : c.utf8Size = 1 := by
+  by_cases hc : c.toNat < 128
+  · have e : c.val.toNat = c.toNat := rfl
+    have : c.val ≤ 127 := by rw [UInt32.le_iff_toNat_le]; simp; omega
+    simp [Char.utf8Size, this]
+  · rw [digitIn_none_of_ge _ _ hc] at h; simp at h
+
+theorem digits_bytes {radix : Nat} : ∀ (s : List Char) (acc n : Nat), digits radix s acc = some n →
+    (s.map Char.utf8Size).sum = s.length
+  | [], _, _, _ => rfl
+  | c :: cs, acc, n, h => by
+    simp only [digits] at h
+    split at h
+    · rename_i d hd
+      simp [digit_ascii hd, digits_bytes cs _ n h]; omega
+    · simp at h
+
+theorem digits_lt_pow : ∀ (s : List Char) (acc n : Nat), digits 16 s acc = some n → n < (acc + 1) * 16 ^ s.length
+  | [], acc, n, h => by simp [digits] at h; subst h; simp
+  | c :: cs, acc, n, h => by
+    simp only [digits] at h
+    split at h
+    · rename_i d hd
+      have hd' := digitIn_lt hd
+      have := digits_lt_pow cs _ n h
+      simp only [List.length_cons, Nat.pow_succ]
+      calc n < (acc * 16 + d + 1) * 16 ^ cs.length := this
+        _ ≤ ((acc + 1) * 16) * 16 ^ cs.length := Nat.mul_le_mul_right _ (by omega)
+        _ = (acc + 1) * (16 ^ cs.length * 16) := by rw [Nat.mul_assoc, Nat.mul_comm 16]
+    · simp at h
+
+theorem toNat_ofNat_valid (n : Nat) (h : n < 0xD800 ∨ (0xE000 ≤ n ∧ n < 0x110000)) : (Char.ofNat n).toNat = n := by
+  have hv : n.isValidChar := by
+    rcases h with h | h
+    · exact Or.inl h
+    · exact Or.inr ⟨by omega, h.2⟩
+  simp [Char.ofNat, hv, Char.ofNatAux, Char.toNat]
+
+theorem charFromU32_some {n : Nat} {c : Char} (h : charFromU32 n = some c) :
+    c.toNat = n ∧ (n < 0xD800 ∨ (0xE000 ≤ n ∧ n < 0x110000)) := by
+  simp only [charFromU32] at h
+  split at h
+  · rename_i hv
+    simp at h; subst h
+    exact ⟨toNat_ofNat_valid n hv, hv⟩
+  · simp at h
+
+/-- without a sign, `from_str_radix` is the loop -/
+theorem fromStrRadix32_nosign {s : List Char} {n : Nat} (hp : '+' ∉ s) (h : fromStrRadix32 16 s = some n) :
+    s ≠ [] ∧ digitsLoop32 16 s 0 = some n := by
+  unfold fromStrRadix32 at h
+  split at h
+  · simp at h
+  · simp at h
+  · simp at h
+  · simp at hp
+  · rename_i h1 h2 h3 h4
+    exact ⟨fun e => h1 e, h⟩
+
+theorem charFromStrRadix_some {s : List Char} {c : Char} (hp : '+' ∉ s) (h : charFromStrRadix s 16 = some c) :
+    ∃ n, s ≠ [] ∧ digits 16 s 0 = some n ∧ c.toNat = n ∧ (n < 0xD800 ∨ (0xE000 ≤ n ∧ n < 0x110000)) := by
+  simp only [charFromStrRadix] at h
+  split at h
+  · rename_i n hn
+    obtain ⟨hne, hl⟩ := fromStrRadix32_nosign hp hn
+    obtain ⟨h1, h2⟩ := charFromU32_some h
+    exact ⟨n, hne, loop32_digits _ _ _ hl, h1, h2⟩
+  · simp at h
+
+theorem utf8Size_pos (c : Char) : 1 ≤ c.utf8Size := by
+  simp only [Char.utf8Size]; split <;> (try split) <;> (try split) <;> omega
+
+theorem sum_one_singleton : ∀ (l : List Char), (l.map Char.utf8Size).sum = 1 → ∃ c, l = [c] ∧ c.utf8Size = 1
+  | [], h => by simp at h
+  | [c], h => ⟨c, rfl, by simpa using h⟩
+  | a :: b :: rest, h => by
+    have ha := utf8Size_pos a
+    have hb := utf8Size_pos b
+    simp at h; omega
+
+theorem utf8Size_one_lt (c : Char) (h : c.utf8Size = 1) : c.toNat < 128 := by
+  have e : c.val.toNat = c.toNat := rfl
+  simp only [Char.utf8Size] at h
+  split at h
+  · rename_i h1; rw [UInt32.le_iff_toNat_le] at h1; simp at h1; omega
+  · split at h
+    · omega
+    · split at h <;> omega
+
+def singleOk (n : Nat) : Bool :=
+  match unescapeChar ['\\', Char.ofNat n] with
+  | some c => decide (escapeValue ['\\', Char.ofNat n] = some (units16 [c]))
+  | none => true
+
+/-- single-character escapes: finite table, checked by kernel evaluation over all ASCII characters -/
+theorem single_escape_table : ∀ n, n < 128 → singleOk n = true := by
+  decide +kernel
+
+theorem units16_single (c : Char) : units16 [c] = utf16Encode c.toNat := by simp [units16]
+
+/-- C03, string escapes: whenever `unescape_char` accepts an escape sequence, the character it yields is the
+    ECMAScript value of that escape sequence (no sign characters: guaranteed by the lexer's escape pattern) -/
+theorem unescape_sound (e : List Char) (c : Char) (hp : '+' ∉ e) (h : unescapeChar e = some c) :
+    escapeValue e = some (units16 [c]) := by
+  unfold unescapeChar at h
+  split at h
+  · rename_i tail
+    by_cases hl : (tail.map Char.utf8Size).sum = 1
+    · obtain ⟨c0, rfl, h0⟩ := sum_one_singleton tail hl
+      have hn := utf8Size_one_lt c0 h0
+      have ht := single_escape_table c0.toNat hn
+      unfold singleOk at ht
+      rw [← char_eq_ofNat c0] at ht
+      have hm : unescapeChar ['\\', c0] = some c := h
+      simp only [hm, decide_eq_true_eq] at ht
+      exact ht
+    · simp only [hl, if_false] at h
+      have hbrace : digitIn 16 '{' = none := by decide
+      split at h
+      · -- \u{…}
+        rename_i rest
+        have hp' : '+' ∉ rest := fun hm => hp (by simp [hm])
+        split at h
+        · rename_i hlast
+          have hp'' : '+' ∉ rest.dropLast := fun hm => hp' (List.dropLast_subset _ hm)
+          obtain ⟨n, hne, hd, hcn, hv⟩ := charFromStrRadix_some hp'' h
+          have hne' : rest.dropLast.isEmpty = false := by
+            cases hdl : rest.dropLast with
+            | nil => exact absurd hdl hne
+            | cons _ _ => rfl
+          have hle : n ≤ 1114111 := by omega
+          simp only [escapeValue, hlast, hne', hd, hle, if_true, units16_single, hcn]
+          simp
+        · split at h
+          · have hp'' : '+' ∉ ('{' :: rest) := by
+              intro hm; simp at hm; exact hp' hm
+            obtain ⟨n, _, hd, _, _⟩ := charFromStrRadix_some hp'' h
+            simp [digits, hbrace] at hd
+          · simp at h
+      · -- \uHHHH
+        rename_i rest hnb
+        split at h
+        · rename_i hlen
+          have hp' : '+' ∉ rest := fun hm => hp (by simp [hm])
+          obtain ⟨n, hne, hd, hcn, hv⟩ := charFromStrRadix_some hp' h
+          have hb := digits_bytes rest 0 n hd
+          have hu : 'u'.utf8Size = 1 := by decide
+          have hlen4 : rest.length = 4 := by simp [hu] at hlen; omega
+          have hlt := digits_lt_pow rest 0 n hd
+          rw [hlen4] at hlt
+          have hn : n < 65536 := by omega
+          cases rest with
+          | nil => simp at hlen4
+          | cons r rs =>
+            have hr : r ≠ '{' := fun e => hnb rs (by rw [e])
+            simp only [escapeValue, hlen4, hd, units16_single, hcn, utf16Encode, hn]
+            simp
+        · simp at h
+      · -- \xHH
+        rename_i rest
+        split at h
+        · rename_i hlen
+          have hp' : '+' ∉ rest := fun hm => hp (by simp [hm])
+          obtain ⟨n, hne, hd, hcn, hv⟩ := charFromStrRadix_some hp' h
+          have hb := digits_bytes rest 0 n hd
+          have hx : 'x'.utf8Size = 1 := by decide
+          have hlen2 : rest.length = 2 := by simp [hx] at hlen; omega
+          have hlt := digits_lt_pow rest 0 n hd
+          rw [hlen2] at hlt
+          have hn : n < 65536 := by omega
+          simp only [escapeValue, hlen2, hd, units16_single, hcn, utf16Encode, hn]
+          simp
+        · simp at h
+      · simp at h
+  · simp at h
+
+theorem units16_append (a b : List Char) : units16 (a ++ b) = units16 a ++ units16 b := by
+  induction a with
+  | nil => rfl
+  | cons c cs ih => simp [units16, ih]
+
+def toSeg : Segment → Seg
+  | .fragment s => .fragment s
+  | .escape s => .escape s
+
+def signFree : List Segment → Prop
+  | [] => True
+  | .fragment _ :: rest => signFree rest
+  | .escape e :: rest => '+' ∉ e ∧ signFree rest
+
+/-- C03, string literals: whenever `parse_string` accepts a literal, the string it yields is the ECMAScript string
+    value of the literal (UTF-16 code units) -/
+theorem parseString_sound : ∀ (segs : List Segment) (s : List Char), signFree segs → parseString segs = some s →
+    stringValue (segs.map toSeg) = some (units16 s)
+  | [], s, _, h => by simp [parseString] at h; subst h; rfl
+  | .fragment f :: rest, s, hs, h => by
+    simp only [parseString] at h
+    cases hr : parseString rest with
+    | none => simp [hr] at h
+    | some t =>
+      simp [hr] at h; subst h
+      have := parseString_sound rest t hs hr
+      simp [toSeg, stringValue, this, units16_append]
+  | .escape e :: rest, s, hs, h => by
+    simp only [parseString] at h
+    cases he : unescapeChar e with
+    | none => simp [he] at h
+    | some c =>
+      simp only [he] at h
+      cases hr : parseString rest with
+      | none => simp [hr] at h
+      | some t =>
+        simp [hr] at h; subst h
+        have h1 := unescape_sound e c hs.1 he
+        have h2 := parseString_sound rest t hs.2 hr
+        simp [toSeg, stringValue, h1, h2, units16]
+
 end QV.Proofs.Literal
